@@ -534,7 +534,7 @@ func (e *Exec) FixedPoint(j *Judgement) {
 
 // monitorWatchers: C15 in vivo – every controller watcher of the live incarnation must have been shown the
 // latest version of every record (the stores' own contract). A miss is what turns into a lost wake-up.
-func (e *Exec) monitorWatchers(j *Judgement, events []*world.Event) (missed int) {
+func (e *Exec) monitorWatchers(j *Judgement, events []*world.Event) (missed, missedOwnFanout int) {
 	cur := e.W.Cur().N
 	type rec struct{ store, id string }
 	final := map[rec]uint64{}
@@ -595,9 +595,14 @@ func (e *Exec) monitorWatchers(j *Judgement, events []*world.Event) (missed int)
 			e.C.Count("watcher_final_versions_checked", 1)
 			if m[r] < fv {
 				missed++
+				if store != "prop" {
+					// the transaction and configuration stores fan one Atomix stream out themselves: a miss there
+					// is the store's own doing, not the Atomix client's subscription race (KF-C15-1)
+					missedOwnFanout++
+				}
 				j.add("watchers", []string{"C15"}, "watchers/missed-latest-version", "%s was never shown version %d of %s %s (last shown: %d)", strings.TrimSuffix(w, "/"+store), fv, r.store, r.id, m[r])
 			}
 		}
 	}
-	return missed
+	return missed, missedOwnFanout
 }
